@@ -265,9 +265,14 @@ pub fn known_deviation(ctx: &str, text: &str, alone: &Result<Unifiable, String>,
     }
 }
 
-pub fn enum_contexts(_seed: u64) -> Vec<String> {
+pub fn enum_contexts(seed: u64) -> Vec<String> {
     let mut out = vec![];
-    for ctx in CONTEXTS { for t in texts() { if fits(ctx, &t) { out.push(format!("{} :: {}", ctx, t)); } } }
+    let mut all = texts();
+    // and generated terms (the term generator of c19_random: nested lists, complex terms, functions, infix arithmetic at the top)
+    let mut r = crate::terms::Rng(seed.wrapping_mul(0x9E3779B97F4A7C15) ^ 0x632BE59BD9B4E019 | 1);
+    for k in 0..400 { let (src, _) = crate::o_parsers::r_term(&mut r, 1 + k % 3, k % 2 == 0); all.push(src); }
+    all.sort(); all.dedup();
+    for ctx in CONTEXTS { for t in &all { if fits(ctx, t) { out.push(format!("{} :: {}", ctx, t)); } } }
     out
 }
 
